@@ -374,3 +374,11 @@ func IndentsByParsedLevel(a *levelAttr, sb *strings.Builder) {
 
 // SizesByWidth violates R2.18: the width is whatever the file says.
 func SizesByWidth(pageWidth float64) []int { return make([]int, int(pageWidth/5)+1) }
+
+// ChecksWrappedProduct violates R2.19.
+func ChecksWrappedProduct(rows, cols int) [][]int {
+	if rows < 0 || cols < 0 || int64(rows)*int64(cols) > 20000000 {
+		return nil
+	}
+	return make([][]int, rows)
+}
